@@ -7,38 +7,38 @@ RUNTIME_TB = ["R-SUM's specification table in lexlint/rules_runtime.py (the cont
 GEN_ALL = {"P1", "P2", "P3", "P4", "P5", "P6", "P7", "P8", "P9", "R-SAVED", "R-BSEARCH", "R-NAMES",
            "R-WHO", "R-PANIC", "R-CTOR", "R-SUGAR"}
 FLOORS = {"ops": 700, "munch": 240, "rulesets": 70, "rctx": 190, "eoi": 40, "classes": 330, "builtins": 33,
-          "prec": 100, "actions": 4, "modules": 10, "illformed": 50}
+          "prec": 100, "actions": 4, "modules": 10, "illformed": 50, "mix": 150}
 
 
 def c01(ctx, env):
     env.src(ctx, ["R-WL", "R-EXH", "R-ORDER"])
     env.runtime(ctx, {"R-SUM", "R-PAIR"})
     env.replay_gen(ctx, {"R-SAVED", "P5", "P6", "P9", "TV", "TV-CTX"})
-    env.witnesses(ctx, ["munch", "ops", "rctx", "rulesets"],
+    env.witnesses(ctx, ["munch", "ops", "rctx", "rulesets", "mix"],
                   {"TV", "TV-CTX", "COMPILE", "R-SAVED", "P5", "P6", "P9", "R-BSEARCH"}, FLOORS)
 
 
 def c02(ctx, env):
     env.src(ctx, ["R-FLOW", "R-EXH"])
     env.replay_gen(ctx, {"TV", "R-BSEARCH"})
-    env.witnesses(ctx, ["ops", "classes", "prec"], {"TV", "COMPILE", "R-BSEARCH", "P9"}, FLOORS)
+    env.witnesses(ctx, ["ops", "classes", "prec", "mix"], {"TV", "COMPILE", "R-BSEARCH", "P9"}, FLOORS)
 
 
 def c03(ctx, env):
     env.runtime(ctx, {"R-SUM", "R-WHO"})
     env.replay_gen(ctx, {"P7", "P5", "P6", "P9", "R-WHO", "TV"})
-    env.witnesses(ctx, ["rulesets", "actions"], {"TV", "COMPILE", "P7", "P5", "P6", "P9", "R-WHO"}, FLOORS)
+    env.witnesses(ctx, ["rulesets", "actions", "mix"], {"TV", "COMPILE", "P7", "P5", "P6", "P9", "R-WHO"}, FLOORS)
 
 
 def c04(ctx, env):
     env.replay_gen(ctx, {"P8", "P9", "R-BSEARCH", "TV", "TV-CTX"})
-    env.witnesses(ctx, ["rctx", "modules"], {"TV", "TV-CTX", "COMPILE", "P8", "P9", "R-BSEARCH"}, FLOORS)
+    env.witnesses(ctx, ["rctx", "modules", "mix"], {"TV", "TV-CTX", "COMPILE", "P8", "P9", "R-BSEARCH"}, FLOORS)
 
 
 def c05(ctx, env):
     env.runtime(ctx, {"R-SUM", "R-WHO"})
     env.replay_gen(ctx, {"P1", "P2", "P3", "P4", "P9", "R-WHO", "TV"})
-    env.witnesses(ctx, ["eoi"], {"TV", "COMPILE", "P1", "P2", "P3", "P4", "P9"}, FLOORS)
+    env.witnesses(ctx, ["eoi", "mix"], {"TV", "COMPILE", "P1", "P2", "P3", "P4", "P9"}, FLOORS)
 
 
 def c06(ctx, env):
